@@ -511,6 +511,15 @@ func c10R3(c *Ctx, r *Report) {
 				if miss := guardsMissing(fn, st.Block(), []Guard{g}); len(miss) > 0 {
 					problems = append(problems, fmt.Sprintf("%s: wildcard owner reconstruction not guarded by %s", c.pos(st.Pos()), miss[0]))
 				}
+				// ... and by nothing else: RFC 4035 s.5.3.2 rebuilds the owner whenever it has more labels than the RRSIG's Labels field
+				for _, fc := range factsAt(fn, st.Block()) {
+					if fc.If == nil || !(copyCall.Block() == fc.If.Block() || copyCall.Block().Dominates(fc.If.Block())) {
+						continue
+					}
+					if !matchGuard(fc, g) {
+						problems = append(problems, fmt.Sprintf("%s: the wildcard owner is rebuilt only under an additional condition (%s): owners with more labels than RRSIG.Labels that fail it are signed/verified under their own name, so valid wildcard expansions are refused", c.pos(st.Pos()), c.pos(fc.If.Pos())))
+					}
+				}
 			}
 		})
 		if nWild != 1 {
